@@ -613,6 +613,26 @@ def extra_shared_config(ctx, rec):
                 rec.session([({"kind": "base", "i": 0, "k": 0}, other)], CONCS[0])
 
 
+def extra_shared_spans(ctx, rec):
+    """C03 (and C01, call histories): caller-owned span LIST objects re-used by many calls on different data -- open
+    bounds, reversed spans, negative data; every call is judged by the rule as if it were the first"""
+    g = gen_qc.Gen(ctx.seed + 131, size=ctx.pick(6, 10))
+    for k in range(ctx.pick(12, 80)):
+        for fn in ("valid", "gross"):
+            proto = g.base(fn)
+            if fn == "valid" and proto["p"]["kind"] != "num":
+                continue
+            if fn == "valid" and k % 2:
+                proto["p"]["lo" if k % 4 == 1 else "hi"] = gen_qc.NA        # an open bound
+            for j in range(ctx.pick(4, 6)):
+                c = g.base(fn)
+                if fn == "valid" and c["p"]["kind"] != "num":
+                    continue
+                c["p"] = json.loads(json.dumps(proto["p"]))
+                c["x"] = [v if v == gen_qc.NA else v - 4 * (j % 2) for v in c["x"]]
+                rec.session([({"kind": "base", "i": 0, "k": 0}, c, {"history": True})], dict(CONCS[0], spanc="shared"))
+
+
 def extra_att_fractional(ctx, rec):
     """C12: window lengths that are not a whole number of seconds (1.5 s, 2.5 s ...) on half-second axes; time axis
     and window length share the abstract unit, so the window rule (t - test_period, t] is judged exactly"""
@@ -691,7 +711,7 @@ PLAN = {
     "C01": {"mc": T([M("all_recall", ALL_FNS, ["recall"], 2, budget=20000)],
                     [M("all_recall", ALL_FNS, ["recall"], 3, budget=150000)]),
             "random": {"fns": ALL_FNS, "count": (330, 4400), "kinds": ["recall"], "size": (10, 30)},
-            "extra": [extra_short_series, extra_purity, extra_shared_config, extra_repo_tests]},
+            "extra": [extra_short_series, extra_purity, extra_shared_config, extra_shared_spans, extra_repo_tests]},
     "C02": {"mc": T([M("missing_a", ["gross", "valid", "spike", "roc", "flat", "dens", "loc", "clim"], [], 3, budget=20000),
                      M("missing_b", ["att", "speed"], [], 2, budget=6000)],
                     [M("missing_a", ["gross", "valid", "spike", "roc", "flat", "loc", "clim"], [], 5, big=True, budget=120000),
@@ -701,7 +721,7 @@ PLAN = {
     "C03": {"repo_fns": ["gross", "valid"], "mc": T([M("range", ["gross", "valid"], ["shiftboth", "recall"], 1, budget=14000)],
                     [M("range", ["gross", "valid"], ["shiftboth", "tighten"], 1, big=True, budget=150000)]),
             "random": {"fns": ["gross", "valid"], "count": (500, 6000), "kinds": ["recall", "shiftboth"], "size": (10, 30)},
-            "extra": [extra_valid_int, extra_valid_time_bounds, extra_repo_tests]},
+            "extra": [extra_valid_int, extra_valid_time_bounds, extra_repo_tests, extra_shared_spans]},
     "C08": {"repo_fns": ["clim"], "mc": T([M("clim", ["clim"], ["perturb"], 1, budget=16000)],
                     [M("clim", ["clim"], ["perturb", "tighten"], 1, big=True, budget=160000)]),
             "random": {"fns": ["clim"], "count": (500, 6000), "kinds": ["recall", "shiftt"], "size": (8, 24)},
